@@ -1022,7 +1022,7 @@ def refine_lines(g1, g2):
                 out.extend(t)
         return " ".join(out)
     a, b = uniq(a), uniq(b)
-    return [f"refinestat {a}", f"refinestat {b}", f"canonrefine {a} | {b}"]
+    return [f"canonrefine {a} | {b}"]
 
 
 def refine_stats_obs(st):
@@ -1071,8 +1071,11 @@ def select_model_obs(case, out):
         if not out:
             return []
         n = 3 if canon_ok(case["g1"], case["g2"]) else 2
+        # equality of the two canonical graphs as predicted by the model: by `canonRefine` (labels from the refined
+        # colour hashes, theorems canon_complete_partial / canon_sound_partial) when the model's refinement is discrete
+        # on both graphs, otherwise (driver answers n/a) by the verified isomorphism verdict (theorem canon_decides)
         return ([out[0]] * 4 + ["diff " + out[1]] + (["canon-search-verdict " + out[2]] if n == 3 else [])
-                + ["refine-stats g1 " + out[n], "refine-stats g2 " + out[n + 1], "canon-refine-verdict " + out[n + 2]])
+                + ["canon-refine-verdict " + (out[n] if out[n] != "n/a" else out[0])])
     if case["kind"] == "skolem":
         return ["skolem-roundtrip-iso " + out[0]] if out else []
     if case["kind"] == "hist":
@@ -1159,7 +1162,7 @@ def call(viol, tag, fn, *a):
     return False, None
 
 
-def refine_probe(triples, stats):
+def refine_probe(triples, stats, public=None):
     """DIAGNOSTIC ONLY (never a verdict, private API): partition of the blank nodes after rdflib's initial colour
     refinement vs the partition computed by the Lean transcription RV/C14/Canon.lean (`refine` op of the driver)."""
     try:
@@ -1178,9 +1181,26 @@ def refine_probe(triples, stats):
         if k not in voc:
             voc[k] = len(voc)
         return 2 * voc[k] + (1 if is_b(x) else 0)
-    line = "refine " + " ".join(str(code(x)) for t in triples for x in t)
+    codes, seen = [], set()
+    for t in triples:
+        ct = tuple(code(x) for x in t)
+        if ct not in seen:   # equal rdflib terms share a code: the store holds the triple once
+            seen.add(ct)
+            codes.extend(ct)
+    line = "refine " + " ".join(str(c) for c in codes)
     exe = os.path.join(core.LEAN, ".lake", "build", "bin", DRIVER)
-    out = subprocess.run([exe], input=line + "\n", stdout=subprocess.PIPE, text=True, timeout=60, cwd=core.LEAN).stdout.strip()
+    outs = subprocess.run([exe], input=line + "\n" + line.replace("refine", "refinestat", 1) + "\n", stdout=subprocess.PIPE,
+                          text=True, timeout=60, cwd=core.LEAN).stdout.split("\n")
+    out = outs[0].strip()
+    if public is not None and len(outs) > 1:
+        # DIAGNOSTIC: the PUBLIC stats of to_canonical_graph (number of blank-node colours after the initial _refine,
+        # search needed or not) vs the model.  Not a verdict: `_refine` ends by merging colours whose hashes are equal,
+        # and a child colour that received no new item has its parent's hash, so with other hash VALUES (the model's
+        # hashes are not SHA-256) the splitters are popped in another order and such a merge may hit other colours;
+        # the count after the merge is therefore hash-dependent (false alarm on seed 2, see design.d/C14.md)
+        k, dis = refine_stats_obs(public)
+        key2 = "refine_stats_agree" if outs[1].strip() == "cells=%d discrete=%s" % (k, b2s(dis)) else "refine_stats_differ"
+        stats[key2] = stats.get(key2, 0) + 1
     rev = {v: k for k, v in voc.items()}
     model = sorted(sorted(rev[int(i)] for i in cl.split(",")) for cl in out.split(" | ")) if out and out != "bad-op" else []
     key = "refine_probe_agree" if model == impl else "refine_probe_differ"
@@ -1302,14 +1322,11 @@ def run_pair(case):
             obs.append("canon-search-verdict " + b2s(r_can))
         # the colour-refinement model, through the public `stats` of to_canonical_graph
         (k1, dis1), (k2, dis2) = refine_stats_obs(st1), refine_stats_obs(st2)
-        obs.append("refine-stats g1 cells=%d discrete=%s" % (k1, b2s(dis1)))
-        obs.append("refine-stats g2 cells=%d discrete=%s" % (k2, b2s(dis2)))
-        obs.append("canon-refine-verdict " + (b2s(r_can) if dis1 and dis2 else "n/a"))
-        stats["refine_stats_lines"] = 2
+        obs.append("canon-refine-verdict " + b2s(r_can))
         stats["refine_discrete_graphs"] = int(dis1) + int(dis2)
         if dis1 and dis2:
-            stats["canon_refine_verdicts"] = 1
-    refine_probe(g1s, stats)
+            stats["canon_refine_verdicts_both_discrete"] = 1
+    refine_probe(g1s, stats, st1)
     prof = (profile(g1s), profile(g2s))
     nontrivial = any(c > 1 for pr in prof for c in pr)
     if nontrivial:
